@@ -18,8 +18,10 @@ from pathlib import Path
 
 VERIF = Path(__file__).resolve().parent.parent
 REPO = Path(os.environ.get("VERIF_REPO", "/repo"))
-EVIDENCE_DIR = VERIF / "evidence"
-REPLAY_DIR = VERIF / "replay"
+# the two overrides exist only for tools/run_seeds.py and sa/selftest.py (scratch runs must not
+# clobber the evidence of the registered run)
+EVIDENCE_DIR = Path(os.environ.get("VERIF_EVIDENCE_DIR", VERIF / "evidence"))
+REPLAY_DIR = Path(os.environ.get("VERIF_REPLAY_DIR", VERIF / "replay"))
 KNOWN_FILE = VERIF / "known_findings.txt"
 
 
